@@ -16,6 +16,9 @@ Items: `0 cat char pos` character token, `1 char pos` active, `2 len chars pos` 
 sequence, `3 char pos` invalid character, `4` end of line, `5` end of input, `6` panic,
 `7` out of fuel; `pos` = `line col len text*len`.
 
+* `sps <rep> <k> <cfg0> (<line> <col> <n> <name>*n <upd>)*k <m> <src>*m` (`<upd>` = `0 <char> <cat>` or `1 <eol> 0`) → `<M items> | <S items>`:
+  `lexTracedSched` and `Spec.specSched` under the schedule "`cfg0` changed by every command whose
+  control sequence (name, line, column) has been delivered".
 * `leg <rep> <k> (<fromKey> <cfg>)*k <m> <src>*m` → `<A> | <B> | <AB>`: the diagnostic variants
   of the model without the C03-a repair, without the C03-b repair, without both. -/
 open C03 Proto
@@ -221,6 +224,49 @@ def all (sched : List (Nat × Cfg)) (c0 : Cfg) (rep : Bool) (src : List Char) : 
 
 end Legacy
 
+/-! ### `sps`: the model and the specification under a history-determined configuration -/
+
+structure Trigger where
+  line : Nat
+  col : Nat
+  name : List Char
+  /-- what executing the command does to the configuration -/
+  upd : Cfg → Cfg
+
+/-- `0 <char> <cat>`: the category of one character; `1 <char or -1> 0`: the end-line character. -/
+def decUpd (c : Cur) : Option ((Cfg → Cfg) × Cur) :=
+  match c with
+  | 0 :: x :: y :: t => do
+    let ch ← chr? x
+    if y < 0 ∨ 15 < y then none
+    pure ((fun c => { c with cat := fun d => if d = ch then CatCode.ofCode y.toNat else c.cat d }), t)
+  | 1 :: x :: _ :: t => do
+    let e ← if x < 0 then some none else (chr? x).map some
+    pure ((fun c => { c with endline := e }), t)
+  | _ => none
+
+def decTriggers : Nat → Cur → Option (List Trigger × Cur)
+  | 0, c => some ([], c)
+  | n + 1, ln :: col :: t => do
+    if ln < 0 ∨ col < 0 then none
+    let (name, t) ← decSrc t
+    let (upd, t) ← decUpd t
+    let (r, t) ← decTriggers n t
+    pure (⟨ln.toNat, col.toNat, name, upd⟩ :: r, t)
+  | _, _ => none
+
+def fired (hist : List (Res Pos)) (tr : Trigger) : Bool :=
+  hist.any fun r =>
+    match r with
+    | .token (.cs name) p => p.line == tr.line && p.col == tr.col && (tr.name.isEmpty || name == tr.name)
+    | _ => false
+
+/-- The configuration after `hist`: `c0` changed by the commands, in order, whose trigger (a
+control sequence with the given name — any name if none is given — delivered from the given
+line and column) has fired. -/
+def schedOf (c0 : Cfg) (trs : List Trigger) (hist : List (Res Pos)) : Cfg :=
+  trs.foldl (fun acc tr => if fired hist tr then tr.upd acc else acc) c0
+
 def handle (line : String) : String :=
   match words line with
   | "lex" :: ws =>
@@ -246,6 +292,22 @@ def handle (line : String) : String :=
           showItems ((lexSched sched c0 (rep != 0) (L.mu + 2) L).map (Res.map (trace src)))
         | _ => "bad-request"
       | _ => "bad-request"
+    | _ => "bad-request"
+  | "sps" :: ws =>
+    match ints? ws with
+    | some (rep :: k :: t) =>
+      if k < 0 then "bad-request" else
+      match decCfg t with
+      | some (c0, t) =>
+        match decTriggers k.toNat t with
+        | some (trs, t) =>
+          match decSrc t with
+          | some (src, []) =>
+            let sched := schedOf c0 trs
+            s!"{showItems (lexTracedSched sched (rep != 0) src)} | {showItems (Spec.specSched sched (rep != 0) src)}"
+          | _ => "bad-request"
+        | none => "bad-request"
+      | none => "bad-request"
     | _ => "bad-request"
   | "leg" :: ws =>
     match ints? ws with
